@@ -1006,7 +1006,112 @@ fn probe_body() -> i32 {
     0
 }
 
+/// Terms yielded by the stores are `&SimpleTerm<'static>`; cloning one gives an owned-looking
+/// `SimpleTerm<'static>` that safe code may keep after the store is gone. It must therefore own
+/// its data (or point to truly static data), not alias the store's heap.
+/// Exit code 4 + "ALIAS ..." lines = the clone aliases store memory (no freed memory is read).
+fn probe_static_clone_body() -> i32 {
+    use sophia_api::term::SimpleTerm;
+    fn ptrs(t: &SimpleTerm<'static>, out: &mut Vec<(String, usize, bool)>) {
+        // (what, address of the string data, MownStr reports "owned")
+        match t {
+            SimpleTerm::Iri(i) => {
+                let m = i.clone().unwrap();
+                out.push(("iri".into(), m.as_ptr() as usize, m.is_owned()));
+                std::mem::forget(m);
+            }
+            SimpleTerm::BlankNode(b) => {
+                let m = b.clone().unwrap();
+                out.push(("bnode".into(), m.as_ptr() as usize, m.is_owned()));
+                std::mem::forget(m);
+            }
+            SimpleTerm::LiteralDatatype(l, d) => {
+                out.push(("lexical".into(), l.as_ptr() as usize, l.is_owned()));
+                let m = d.clone().unwrap();
+                out.push(("datatype".into(), m.as_ptr() as usize, m.is_owned()));
+                std::mem::forget(m);
+            }
+            SimpleTerm::LiteralLanguage(l, tag) => {
+                out.push(("lexical".into(), l.as_ptr() as usize, l.is_owned()));
+                let m = tag.clone().unwrap();
+                out.push(("tag".into(), m.as_ptr() as usize, m.is_owned()));
+                std::mem::forget(m);
+            }
+            SimpleTerm::Variable(v) => {
+                let m = v.clone().unwrap();
+                out.push(("variable".into(), m.as_ptr() as usize, m.is_owned()));
+                std::mem::forget(m);
+            }
+            SimpleTerm::Triple(tr) => {
+                for x in tr.iter() {
+                    ptrs(x, out);
+                }
+            }
+        }
+    }
+    let quads: Vec<MQ> = vec![
+        MQ::new(MT::iri("http://example.org/a-rather-long-iri-so-that-it-lives-on-the-heap"), MT::iri("http://example.org/p"), MT::lang("a language tagged literal of some length", "en-GB"), None),
+        MQ::new(MT::bn("a-blank-node-label-of-some-length"), MT::iri("http://example.org/p"), MT::lit("42", "http://www.w3.org/2001/XMLSchema#integer"), None),
+        MQ::new(MT::triple(MT::iri("http://example.org/quoted-subject"), MT::iri("http://example.org/p"), MT::string("quoted object")), MT::iri("http://example.org/p"), MT::iri("http://example.org/o"), None),
+    ];
+    let mut aliases = 0;
+    let mut examined = 0;
+    macro_rules! probe_graph {
+        ($ty:ty, $name:expr) => {{
+            let g: $ty = g_from::<$ty>(&quads).expect("build graph");
+            for t in sophia_api::graph::Graph::triples(&g) {
+                let t = t.expect("triple");
+                for yielded in t {
+                    // `yielded: &SimpleTerm<'static>`; the clone is a value the caller may keep for ever
+                    let kept: SimpleTerm<'static> = (*yielded).clone();
+                    let (mut a, mut b) = (vec![], vec![]);
+                    ptrs(yielded, &mut a);
+                    ptrs(&kept, &mut b);
+                    for ((what, pa, _), (_, pb, owned)) in a.iter().zip(b.iter()) {
+                        examined += 1;
+                        if pa == pb && !*owned {
+                            println!("ALIAS {} {}: the clone's {what} points into the store (borrowed, same address)", $name, MT::from_term(yielded).show());
+                            aliases += 1;
+                        }
+                    }
+                    std::mem::forget(kept); // never drop or read it after this point
+                }
+            }
+        }};
+    }
+    probe_graph!(FastGraph, "FastGraph");
+    probe_graph!(LightGraph, "LightGraph");
+    {
+        let mut idx = SimpleTermIndex::<u32>::new();
+        for q in &quads {
+            for t in q.terms() {
+                let i = idx.ensure_index(t.to_simple()).expect("ensure_index");
+                let yielded: &SimpleTerm<'static> = idx.get_term(i);
+                let kept: SimpleTerm<'static> = yielded.clone();
+                let (mut a, mut b) = (vec![], vec![]);
+                ptrs(yielded, &mut a);
+                ptrs(&kept, &mut b);
+                for ((what, pa, _), (_, pb, owned)) in a.iter().zip(b.iter()) {
+                    examined += 1;
+                    if pa == pb && !*owned {
+                        println!("ALIAS SimpleTermIndex {}: the clone's {what} points into the index (borrowed, same address)", t.show());
+                        aliases += 1;
+                    }
+                }
+                std::mem::forget(kept);
+            }
+        }
+    }
+    println!("STATIC-CLONE examined={examined} aliases={aliases}");
+    if aliases > 0 {
+        4
+    } else {
+        0
+    }
+}
+
 fn probe_stage(res: &mut ExtraResult) {
+    probe_static_clone_stage(res);
     use std::process::{Command, Stdio};
     let mut bins: Vec<(String, std::path::PathBuf)> = vec![];
     if let Ok(me) = std::env::current_exe() {
@@ -1059,6 +1164,37 @@ fn probe_stage(res: &mut ExtraResult) {
     }
 }
 
+fn probe_static_clone_stage(res: &mut ExtraResult) {
+    use std::process::{Command, Stdio};
+    let Ok(me) = std::env::current_exe() else { return };
+    let out = Command::new(&me).arg("--worker").arg("C10").arg("probe-static-clone").stdout(Stdio::piped()).stderr(Stdio::piped()).output();
+    res.evaluations += 1;
+    match out {
+        Err(e) => res.inconclusive.push(format!("cannot spawn the static-clone probe: {e}")),
+        Ok(o) => {
+            let so = String::from_utf8_lossy(&o.stdout).to_string();
+            match o.status.code() {
+                Some(0) if so.contains("STATIC-CLONE ") => res.nontrivial += 1,
+                Some(4) => {
+                    res.nontrivial += 1;
+                    let lines: Vec<&str> = so.lines().filter(|l| l.starts_with("ALIAS")).take(6).collect();
+                    res.failures.push((
+                        json!({"probe": "static-clone"}),
+                        Failure {
+                            signature: "ub/static-clone-of-yielded-term-aliases-store".into(),
+                            detail: format!(
+                                "cloning a term yielded by an in-memory store gives a SimpleTerm<'static> that still borrows the store's heap strings: safe code can keep it after dropping the store and then read freed memory (let kept = g.triples().next().unwrap().unwrap()[0].clone(); drop(g); kept.iri()).\n{}",
+                                lines.join("\n")
+                            ),
+                        },
+                    ));
+                }
+                other => res.inconclusive.push(format!("static-clone probe ended unexpectedly: {other:?} {}", so.lines().last().unwrap_or(""))),
+            }
+        }
+    }
+}
+
 pub fn main(opts: &Opts) -> i32 {
     drive::<C10>(opts)
 }
@@ -1072,6 +1208,9 @@ pub fn worker(args: &[String]) -> i32 {
     };
     if file == "probe-unissued-index" {
         return probe_body();
+    }
+    if file == "probe-static-clone" {
+        return probe_static_clone_body();
     }
     let txt = match std::fs::read_to_string(file) {
         Ok(t) => t,
